@@ -202,7 +202,9 @@ def classify(exp, status, text):
     if status in ("CRASH", "TIMEOUT"):
         return "crash" if status == "CRASH" else "timeout"
     if status == "ERR":
-        raise HarnessError("driver error: %s" % text)
+        # the driver's own code around the call failed (it is a fixed program that never does on the unchanged tree:
+        # typically data damaged by an earlier call of the same process)
+        return "driver-error"
     if kind == "S":
         return None
     if kind == "R":
